@@ -7,7 +7,7 @@ for d in $dir/*/; do
   [ -f $d/patch.diff ] || continue
   (cd /repo && git apply $d/patch.diff) || { echo "$n patch-does-not-apply"; continue; }
   (cd /verif && timeout 1800 ./check $p --tier $tier > /tmp/matrix_$n.log 2>/dev/null); rc=$?
-  (cd /repo && git checkout -- .)
+  (cd /repo && git checkout -- .); (cd /verif && git checkout -- evidence 2>/dev/null)   # evidence written against a changed tree is discarded
   proof=$(grep "^VIOLATION" /tmp/matrix_$n.log | grep -v "obligation=B[0-9]:\|obligation=T:\|obligation=E:\|obligation=A:" | wc -l)
   table=$(grep "^VIOLATION" /tmp/matrix_$n.log | grep -c "obligation=T:")
   bounded=$(grep "^VIOLATION" /tmp/matrix_$n.log | grep -c "obligation=[BEA][0-9]*:")
